@@ -7,11 +7,12 @@ package main
 // written from their documentation (see libTransfer).
 
 import (
-	"strconv"
 	"fmt"
 	"go/constant"
 	"go/token"
 	"go/types"
+	"math/big"
+	"strconv"
 	"strings"
 	"unicode"
 
@@ -34,8 +35,10 @@ type fval struct {
 	cvptr Val
 	// iterator over an immutable map table (range over a map); reverse visits the entries last to first
 	iter *foldIter
-	// values captured by a closure (fn is the closure's function)
+	// values captured by a closure (fn is the closure's function), and the memory of the frame that made it (captured
+	// variables live there and stay shared with it, also after that frame has returned)
 	bind []fval
+	heap map[*ssa.Alloc]fval
 	// a non-nil error value; errID distinguishes values made by different errors.New / failing library calls (0 = unknown identity)
 	nonNil bool
 	errID  int
@@ -106,10 +109,17 @@ type folder struct {
 	hook func(in ssa.Instruction, val func(ssa.Value) fval) bool
 	// invoke, when set, gives the result of interface method calls (at any depth); ok=false leaves the result unknown.
 	invoke func(call *ssa.Call, args []fval) (fval, bool)
+	// dyn, when set, stands in for calls of unknown function values (callbacks), at any depth
+	dyn func(call *ssa.Call, args []fval) (fval, bool)
+	// maxSteps overrides the default budget of basic blocks visited
+	maxSteps int
 	// reverseMaps makes ranges over map tables visit the entries in reverse literal order (Go's order is unspecified:
 	// a caller that folds once with and once without it and gets the same answer has shown order independence for that input)
 	reverseMaps bool
 	sawMapRange bool
+	// maps made during the fold (mutable); poisoned ones received a key or value that is not known
+	freshMaps map[*MapV]bool
+	poisoned  map[*MapV]bool
 }
 
 var errStopped = fmt.Errorf("stopped by hook")
@@ -119,6 +129,18 @@ func (c *Ctx) newFolder() *folder { return &folder{c: c} }
 // foldCall folds fn with the given argument values (⊤ allowed). free vars are ⊤.
 func (f *folder) foldCall(fn *ssa.Function, args []fval) (fval, error) {
 	return f.foldCallEnv(fn, args, nil, nil)
+}
+
+// foldMethod folds a method for a receiver given as a struct value, whether the method takes it by value or by pointer
+// (then the struct is put into a cell of the fold's memory and the method gets the cell's address).
+func (f *folder) foldMethod(fn *ssa.Function, recv fval, rest []fval) (fval, error) {
+	if len(fn.Params) > 0 && recv.fields != nil {
+		if _, isPtr := fn.Params[0].Type().Underlying().(*types.Pointer); isPtr {
+			cell := new(ssa.Alloc)
+			return f.foldCallEnv(fn, append([]fval{{addr: &faddr{base: cell}}}, rest...), nil, map[*ssa.Alloc]fval{cell: recv})
+		}
+	}
+	return f.foldCallEnv(fn, append([]fval{recv}, rest...), nil, nil)
 }
 
 // foldCallEnv: as foldCall, for a closure: bind gives its captured values and mem is the memory of the function that
@@ -157,7 +179,7 @@ func (f *folder) foldCallEnv(fn *ssa.Function, args []fval, bind []fval, shared 
 	b := fn.Blocks[0]
 	for {
 		f.steps++
-		if f.steps > 4000 {
+		if f.steps > max(4000, f.maxSteps) {
 			return top, fmt.Errorf("step budget exceeded in %s (loop?)", fname(fn))
 		}
 		// phis first, simultaneously
@@ -333,7 +355,7 @@ func (f *folder) evalInstr(env map[ssa.Value]fval, mem map[*ssa.Alloc]fval, in s
 			for _, b := range x.Bindings {
 				bs = append(bs, f.val(env, b))
 			}
-			env[x] = fval{fn: g, t: x.Type(), bind: bs}
+			env[x] = fval{fn: g, t: x.Type(), bind: bs, heap: mem}
 		}
 	case *ssa.Call:
 		if bi, ok := x.Call.Value.(*ssa.Builtin); ok && (bi.Name() == "max" || bi.Name() == "min") && len(x.Call.Args) >= 1 {
@@ -403,6 +425,7 @@ func (f *folder) evalInstr(env map[ssa.Value]fval, mem map[*ssa.Alloc]fval, in s
 		}
 		callee := staticCallee(&x.Call)
 		var bind []fval
+		var heap map[*ssa.Alloc]fval
 		if !x.Call.IsInvoke() {
 			// a closure (called directly or through a variable): its captured values come along
 			if fv := f.val(env, x.Call.Value); fv.fn != nil {
@@ -410,11 +433,22 @@ func (f *folder) evalInstr(env map[ssa.Value]fval, mem map[*ssa.Alloc]fval, in s
 					callee = fv.fn
 				}
 				if callee == fv.fn {
-					bind = fv.bind
+					bind, heap = fv.bind, fv.heap
 				}
 			}
 		}
 		if callee == nil {
+			// a call of a function value nothing is known about (a callback parameter): the caller of the fold may stand in for it
+			if f.dyn != nil && !x.Call.IsInvoke() {
+				var as []fval
+				for _, a := range x.Call.Args {
+					as = append(as, f.val(env, a))
+				}
+				if r, ok := f.dyn(x, as); ok {
+					env[x] = r
+					return
+				}
+			}
 			env[x] = top
 			return
 		}
@@ -441,6 +475,9 @@ func (f *folder) evalInstr(env map[ssa.Value]fval, mem map[*ssa.Alloc]fval, in s
 		var shared map[*ssa.Alloc]fval
 		if bind != nil {
 			shared = mem
+			if heap != nil {
+				shared = heap
+			}
 		}
 		r, err := f.foldCallEnv(target, as, bind, shared)
 		if err != nil {
@@ -448,8 +485,41 @@ func (f *folder) evalInstr(env map[ssa.Value]fval, mem map[*ssa.Alloc]fval, in s
 		} else {
 			env[x] = r
 		}
+	case *ssa.MakeMap:
+		mv := &MapV{T: x.Type()}
+		if f.freshMaps == nil {
+			f.freshMaps, f.poisoned = map[*MapV]bool{}, map[*MapV]bool{}
+		}
+		f.freshMaps[mv] = true
+		env[x] = fval{cv: mv, t: x.Type()}
+	case *ssa.MapUpdate:
+		mv, ok := f.val(env, x.Map).cv.(*MapV)
+		if !ok || !f.freshMaps[mv] {
+			return
+		}
+		mt, isMap := x.Map.Type().Underlying().(*types.Map)
+		if !isMap {
+			f.poisoned[mv] = true
+			return
+		}
+		kv, ok1 := toVal(f.val(env, x.Key), mt.Key(), f.c)
+		vv, ok2 := toVal(f.val(env, x.Value), mt.Elem(), f.c)
+		if !ok1 || !ok2 {
+			f.poisoned[mv] = true
+			return
+		}
+		replaced := false
+		for i, e := range mv.Entries {
+			if e.K.vstr() == kv.vstr() {
+				mv.Entries[i].V = vv
+				replaced = true
+			}
+		}
+		if !replaced {
+			mv.Entries = append(mv.Entries, KV{K: kv, V: vv})
+		}
 	case *ssa.Range:
-		if mv, ok := f.val(env, x.X).cv.(*MapV); ok {
+		if mv, ok := f.val(env, x.X).cv.(*MapV); ok && !f.poisoned[mv] {
 			es := append([]KV{}, mv.Entries...)
 			if f.reverseMaps {
 				for i, j := 0, len(es)-1; i < j; i, j = i+1, j-1 {
@@ -476,6 +546,10 @@ func (f *folder) evalInstr(env map[ssa.Value]fval, mem map[*ssa.Alloc]fval, in s
 		it.pos++
 		env[x] = fval{tuple: []fval{{k: constant.MakeBool(true), t: boolT}, fromVal(e.K), fromVal(e.V)}}
 	case *ssa.Lookup:
+		if mv, ok := f.val(env, x.X).cv.(*MapV); ok && f.poisoned[mv] {
+			env[x] = top
+			return
+		}
 		env[x] = foldLookup(x, f.val(env, x.X), f.val(env, x.Index))
 	case *ssa.Slice:
 		// a sub-slice of an immutable list with constant bounds
@@ -542,7 +616,13 @@ func (f *folder) evalInstr(env map[ssa.Value]fval, mem map[*ssa.Alloc]fval, in s
 			env[x] = top
 			return
 		}
-		if l, ok := f.val(env, x.X).cv.(*ListV); ok {
+		base := f.val(env, x.X)
+		l, ok := base.cv.(*ListV)
+		if !ok {
+			// the address of an immutable package-level array
+			l, ok = base.cvptr.(*ListV)
+		}
+		if ok {
 			if iv := f.val(env, x.Index); iv.k != nil && iv.k.Kind() == constant.Int {
 				if i, ok := constant.Int64Val(iv.k); ok && i >= 0 && int(i) < len(l.Elems) {
 					env[x] = fval{cvptr: l.Elems[i]}
@@ -642,7 +722,7 @@ func foldBinOp(op token.Token, a, b fval, t types.Type) fval {
 		}
 		return fval{k: constant.MakeBool(constant.Compare(a.k, op, b.k)), t: t}
 	case token.ADD, token.SUB, token.MUL, token.AND, token.OR, token.XOR:
-		return fval{k: constant.BinaryOp(a.k, op, b.k), t: t}
+		return fval{k: wrapToType(constant.BinaryOp(a.k, op, b.k), t), t: t}
 	case token.QUO:
 		if a.k.Kind() == constant.Int && b.k.Kind() == constant.Int {
 			if constant.Sign(b.k) == 0 {
@@ -670,7 +750,7 @@ func foldUnOp(x *ssa.UnOp, a fval) fval {
 			return fval{k: constant.MakeBool(!constant.BoolVal(a.k)), t: x.Type()}
 		}
 	case token.SUB:
-		return fval{k: constant.UnaryOp(token.SUB, a.k, 0), t: x.Type()}
+		return fval{k: wrapToType(constant.UnaryOp(token.SUB, a.k, 0), x.Type()), t: x.Type()}
 	}
 	return top
 }
@@ -681,7 +761,7 @@ func foldConvert(a fval, t types.Type) fval {
 	}
 	if b, ok := t.Underlying().(*types.Basic); ok {
 		if b.Info()&types.IsInteger != 0 && a.k.Kind() == constant.Int {
-			return fval{k: a.k, t: t}
+			return fval{k: wrapToType(a.k, t), t: t}
 		}
 		if b.Info()&types.IsFloat != 0 && (a.k.Kind() == constant.Int || a.k.Kind() == constant.Float) {
 			return fval{k: constant.ToFloat(a.k), t: t}
@@ -741,6 +821,9 @@ func libTransfer(fn *ssa.Function, args []fval) (fval, error) {
 	case "errors.New":
 		nextErrID++
 		return fval{nonNil: true, errID: nextErrID}, nil
+	case "fmt.Errorf":
+		// doc: Errorf formats and returns the string as a value that satisfies error - never nil; which errors it wraps is not tracked
+		return fval{nonNil: true}, nil
 	case "errors.Is":
 		// doc: Is reports whether any error in err's tree matches target; folded only for plain (unwrapped) values of known identity
 		if len(args) == 2 {
@@ -821,6 +904,9 @@ func libTransfer(fn *ssa.Function, args []fval) (fval, error) {
 					if !ok {
 						return top, fmt.Errorf("fmt.Sprintf with non-constant operands")
 					}
+					if hasPrinterMethod(cv.T) {
+						return top, fmt.Errorf("fmt.Sprintf of a value with its own String / Error method")
+					}
 					switch cv.V.Kind() {
 					case constant.String:
 						vals = append(vals, constant.StringVal(cv.V))
@@ -838,6 +924,30 @@ func libTransfer(fn *ssa.Function, args []fval) (fval, error) {
 				}
 				return fval{k: constant.MakeString(fmt.Sprintf(format, vals...)), t: types.Typ[types.String]}, nil
 			}
+		}
+		// Sprint of one integer or string: its default format
+		if name == "fmt.Sprint" && len(args) == 1 {
+			if l, ok := args[0].cv.(*ListV); ok && len(l.Elems) == 1 {
+				if cv, ok := l.Elems[0].(*CVal); ok && !hasPrinterMethod(cv.T) {
+					switch cv.V.Kind() {
+					case constant.String:
+						return fval{k: cv.V, t: types.Typ[types.String]}, nil
+					case constant.Int:
+						return fval{k: constant.MakeString(cv.V.ExactString()), t: types.Typ[types.String]}, nil
+					}
+				}
+			}
+		}
+	case "strconv.FormatUint", "strconv.FormatInt":
+		// doc: the string representation of i in the given base; base 10 modelled
+		if len(args) == 2 && args[0].k != nil && args[0].k.Kind() == constant.Int {
+			if b, ok := argInt(1); ok && b == 10 {
+				return fval{k: constant.MakeString(args[0].k.ExactString()), t: types.Typ[types.String]}, nil
+			}
+		}
+	case "strconv.Itoa":
+		if len(args) == 1 && args[0].k != nil && args[0].k.Kind() == constant.Int {
+			return fval{k: constant.MakeString(args[0].k.ExactString()), t: types.Typ[types.String]}, nil
 		}
 	case "slices.Index", "slices.Contains":
 		// doc: Index returns the index of the first occurrence of v in s, or -1 if not present; Contains reports whether v is present.
@@ -876,6 +986,8 @@ func fromVal(v Val) fval {
 		return fval{fields: fs, t: x.T}
 	case *MapV, *ListV:
 		return fval{cv: v}
+	case *FuncV:
+		return fval{fn: x.Fn, t: x.F.Type()}
 	}
 	return top
 }
@@ -1068,7 +1180,6 @@ func setFvalPath(cur fval, path []string, v fval) fval {
 	return fval{fields: nf, t: cur.t}
 }
 
-
 // readOnlyAddr: the address (of a field or element) is only ever loaded from.
 func readOnlyAddr(a ssa.Value, depth int) bool {
 	switch a.(type) {
@@ -1098,7 +1209,6 @@ func readOnlyAddr(a ssa.Value, depth int) bool {
 	return true
 }
 
-
 // foldInitCall: the variable is initialised by `f(consts...)` with f a repo function: fold that call in the package initialiser.
 func (c *Ctx) foldInitCall(g *ssa.Global, obj *types.Var) (fval, bool) {
 	if g.Pkg == nil {
@@ -1108,58 +1218,130 @@ func (c *Ctx) foldInitCall(g *ssa.Global, obj *types.Var) (fval, bool) {
 	if initFn == nil {
 		return top, false
 	}
-	// the store `g = call` in the package initialiser
-	var call *ssa.Call
+	// the store `g = <value>` in the package initialiser
+	var stored ssa.Value
 	n := 0
 	allInstrs(initFn, func(in ssa.Instruction) {
 		if st, ok := in.(*ssa.Store); ok && st.Addr == ssa.Value(g) {
 			n++
-			v := st.Val
-			for {
-				if ct, ok := v.(*ssa.ChangeType); ok {
-					v = ct.X
-					continue
-				}
-				break
-			}
-			call, _ = v.(*ssa.Call)
+			stored = st.Val
 		}
 	})
-	if n != 1 || call == nil {
+	if n != 1 || stored == nil {
 		return top, false
 	}
-	callee := staticCallee(&call.Call)
-	if callee == nil || !c.isRepoFunc(callee) {
+	fd := c.newFolder()
+	result, ok := c.initValue(fd, g, stored, 0)
+	if !ok || (result.cv == nil && result.k == nil && result.fields == nil && result.fn == nil && !result.nonNil) {
 		return top, false
 	}
-	// the arguments: constants, or a variadic list of constants
-	var as []fval
-	for _, a := range call.Call.Args {
-		if k, ok := a.(*ssa.Const); ok && k.Value != nil {
-			as = append(as, fval{k: k.Value, t: k.Type()})
-			continue
-		}
-		list, ok := variadicConsts(a)
-		if !ok {
-			return top, false
-		}
-		lv := &ListV{T: a.Type()}
-		var et types.Type
-		if st, ok := a.Type().Underlying().(*types.Slice); ok {
-			et = st.Elem()
-		}
-		for _, v := range list {
-			lv.Elems = append(lv.Elems, &CVal{V: constant.MakeInt64(v), T: et, c: c})
-		}
-		as = append(as, fval{cv: lv, t: a.Type()})
-	}
-	result, err := c.newFolder().foldCall(callee, as)
-	if err != nil || result.cv == nil {
+	if mv, ok := result.cv.(*MapV); ok && fd.poisoned[mv] {
 		return top, false
 	}
 	return result, true
 }
 
+// initValue evaluates a value computed in a package initialiser: constants, conversions between integer types, loads of
+// other immutable globals, variadic lists of constants, and calls of repo functions whose arguments are again such values.
+func (c *Ctx) initValue(fd *folder, g *ssa.Global, v ssa.Value, depth int) (fval, bool) {
+	if depth > 6 {
+		return top, false
+	}
+	switch x := v.(type) {
+	case *ssa.Const:
+		if x.Value == nil {
+			return top, false
+		}
+		return fval{k: x.Value, t: x.Type()}, true
+	case *ssa.ChangeType:
+		r, ok := c.initValue(fd, g, x.X, depth+1)
+		if ok && r.k != nil {
+			r.t = x.Type()
+		}
+		return r, ok
+	case *ssa.Convert:
+		r, ok := c.initValue(fd, g, x.X, depth+1)
+		if !ok || r.k == nil || r.k.Kind() != constant.Int {
+			return top, false
+		}
+		// only conversions that keep the value: the result must be representable in the target type
+		if b, isB := x.Type().Underlying().(*types.Basic); !isB || b.Info()&types.IsInteger == 0 || !representable(r.k, b) {
+			return top, false
+		}
+		r.t = x.Type()
+		return r, true
+	case *ssa.UnOp:
+		if x.Op == token.MUL {
+			if g2, ok := x.X.(*ssa.Global); ok && g2 != g {
+				if v2 := c.globalTable(g2); v2.known() {
+					return v2, true
+				}
+			}
+		}
+		return top, false
+	case *ssa.Call:
+		callee := staticCallee(&x.Call)
+		if callee == nil {
+			return top, false
+		}
+		if !c.isRepoFunc(callee) && fname(callee) != "errors.New" {
+			return top, false
+		}
+		var as []fval
+		for _, a := range x.Call.Args {
+			if r, ok := c.initValue(fd, g, a, depth+1); ok {
+				as = append(as, r)
+				continue
+			}
+			list, ok := variadicConsts(a)
+			if !ok {
+				return top, false
+			}
+			lv := &ListV{T: a.Type()}
+			var et types.Type
+			if st, ok := a.Type().Underlying().(*types.Slice); ok {
+				et = st.Elem()
+			}
+			for _, v := range list {
+				lv.Elems = append(lv.Elems, &CVal{V: constant.MakeInt64(v), T: et, c: c})
+			}
+			as = append(as, fval{cv: lv, t: a.Type()})
+		}
+		result, err := fd.foldCall(callee, as)
+		if err != nil {
+			return top, false
+		}
+		return result, true
+	}
+	return top, false
+}
+
+// representable: the integer constant fits the basic integer type.
+func representable(k constant.Value, b *types.Basic) bool {
+	n, ok := constant.Int64Val(k)
+	if !ok {
+		return false
+	}
+	switch b.Kind() {
+	case types.Int8:
+		return n >= -128 && n <= 127
+	case types.Uint8:
+		return n >= 0 && n <= 255
+	case types.Int16:
+		return n >= -32768 && n <= 32767
+	case types.Uint16:
+		return n >= 0 && n <= 65535
+	case types.Int32:
+		return n >= -(1<<31) && n <= (1<<31)-1
+	case types.Uint32:
+		return n >= 0 && n <= (1<<32)-1
+	case types.Int, types.Int64:
+		return true
+	case types.Uint, types.Uint64, types.Uintptr:
+		return n >= 0
+	}
+	return false
+}
 
 var nextErrID int
 
@@ -1169,7 +1351,6 @@ func twoStrings(args []fval) (string, string, bool) {
 	}
 	return constant.StringVal(args[0].k), constant.StringVal(args[1].k), true
 }
-
 
 // toVal converts a fully known folder value (a constant, or a struct of such) into a table value.
 func toVal(v fval, t types.Type, c *Ctx) (Val, bool) {
@@ -1198,4 +1379,62 @@ func toVal(v fval, t types.Type, c *Ctx) (Val, bool) {
 		return sv, true
 	}
 	return nil, false
+}
+
+// wrapToType: an integer constant reduced to the range of a fixed-width integer type, as Go's arithmetic and conversions
+// do (modulo 2^width); other values and types are returned as they are.
+func wrapToType(k constant.Value, t types.Type) constant.Value {
+	if k == nil || k.Kind() != constant.Int || t == nil {
+		return k
+	}
+	b, ok := t.Underlying().(*types.Basic)
+	if !ok || b.Info()&types.IsInteger == 0 || b.Info()&types.IsUntyped != 0 {
+		return k
+	}
+	var bits uint
+	signed := b.Info()&types.IsUnsigned == 0
+	switch b.Kind() {
+	case types.Int8, types.Uint8:
+		bits = 8
+	case types.Int16, types.Uint16:
+		bits = 16
+	case types.Int32, types.Uint32:
+		bits = 32
+	default:
+		bits = 64
+	}
+	var n *big.Int
+	switch v := constant.Val(k).(type) {
+	case int64:
+		n = big.NewInt(v)
+	case *big.Int:
+		n = new(big.Int).Set(v)
+	default:
+		return k
+	}
+	mod := new(big.Int).Lsh(big.NewInt(1), bits)
+	n.Mod(n, mod) // 0 <= n < 2^bits
+	if signed {
+		half := new(big.Int).Lsh(big.NewInt(1), bits-1)
+		if n.Cmp(half) >= 0 {
+			n.Sub(n, mod)
+		}
+	}
+	return constant.Make(n)
+}
+
+// hasPrinterMethod: fmt prints values of this type through their own String / Error method.
+func hasPrinterMethod(t types.Type) bool {
+	if t == nil {
+		return false
+	}
+	for _, tt := range []types.Type{t, types.NewPointer(t)} {
+		ms := types.NewMethodSet(tt)
+		for i := 0; i < ms.Len(); i++ {
+			if n := ms.At(i).Obj().Name(); n == "String" || n == "Error" || n == "Format" || n == "GoString" {
+				return true
+			}
+		}
+	}
+	return false
 }
